@@ -32,7 +32,8 @@ pub struct Spec {
     claim: String,
     /// plain | one-byte (transport delivers and accepts one byte at a time) | slow-auth (the
     /// authentication service takes 17 s, a keep-alive tick passes meanwhile) | auth-8s | auth-never
-    /// (the service does not answer within the horizon) | slow-routing
+    /// (the service does not answer within the horizon) | slow-routing | enc-13h (the client answers the
+    /// Encryption Request thirteen hours later: anything time-dependent on the server side has moved on)
     #[serde(default)]
     transport: String,
 }
@@ -109,13 +110,23 @@ fn build(s: &Spec, stale: &[u8]) -> Case {
         "slow-auth" => case.adapters.auth_ms = 17_000,
         "auth-8s" => case.adapters.auth_ms = 8_000,
         "auth-never" => case.adapters.auth_ms = 1_000_000,
+        "enc-13h" => {
+            for st in case.script.iter_mut() {
+                if matches!(st.act, Act::EncResponse(_)) {
+                    st.when = When::IdleAfter(13 * 3_600_000);
+                }
+            }
+            case.horizon_ms = 14 * 3_600_000;
+        }
         "slow-routing" => {
             case.adapters.disc_ms = 17_000;
             case.adapters.strat_ms = 17_000;
         }
         _ => {}
     }
-    case.horizon_ms = 120_000;
+    if s.transport != "enc-13h" {
+        case.horizon_ms = 120_000;
+    }
     case
 }
 
@@ -269,7 +280,7 @@ fn specs(thorough: bool) -> Vec<Spec> {
             for verdict in verdicts {
                 for routing in [true, false] {
                     for claim in &claims {
-                        for transport in ["plain", "one-byte", "slow-auth", "auth-8s", "auth-never", "slow-routing"] {
+                        for transport in ["plain", "one-byte", "slow-auth", "auth-8s", "auth-never", "slow-routing", "enc-13h"] {
                             out.push(Spec { intent: intent.into(), enc: enc.clone(), verdict: verdict.into(), routing, claim: claim.to_string(), transport: transport.into() });
                         }
                     }
@@ -349,7 +360,7 @@ pub fn run(cli: Cli) -> ! {
     rep.set("admitted", json!(admitted.load(Ordering::Relaxed)));
     rep.set("refused", json!(refused.load(Ordering::Relaxed)));
     rep.set("exhaustive", json!(true));
-    rep.set("rule", json!("full product intent(8, three of them with a genuine-but-inapplicable or forged cookie of another identity) x encryption response(21) x authentication verdict(7) x routing(2) x transport/latency variant(6: plain, one byte at a time, authentication taking 8 s / 17 s / longer than the horizon, routing taking 34 s) [x claimed identity shape(3) in thorough]; one connection per element plus one prior connection that supplies the stale token; a state is the script reaching it"));
+    rep.set("rule", json!("full product intent(8, three of them with a genuine-but-inapplicable or forged cookie of another identity) x encryption response(21) x authentication verdict(7) x routing(2) x transport/latency variant(7: plain, one byte at a time, authentication taking 8 s / 17 s / longer than the horizon, routing taking 34 s, Encryption Response sent 13 h after the request) [x claimed identity shape(3) in thorough]; one connection per element plus one prior connection that supplies the stale token; a state is the script reaching it"));
     rep.sample(json!({"spec": all[0]}));
     rep.sample(json!({"spec": Spec { intent: "transfer-cookie".into(), enc: "honest".into(), verdict: "err".into(), routing: true, claim: "ascii".into(), transport: "plain".into() }, "expect": "admitted as the cookie's identity, service not called"}));
     rep.sample(json!({"spec": Spec { intent: "login".into(), enc: "token-prefix-1".into(), verdict: "claim".into(), routing: true, claim: "ascii".into(), transport: "plain".into() }, "expect": "nothing granted"}));
